@@ -17,6 +17,7 @@
 #include <algorithm>
 #include <cstring>
 #include <fstream>
+#include <map>
 #include <set>
 #include <sstream>
 #define private public
@@ -334,9 +335,20 @@ std::string cv_result(const OptResult& r) {
 }
 
 // convert, save, reload, convert back, save, reload; one JSON object per stage
+std::map<std::string, std::vector<Triangle>> g_genTris;	// strip shapes of the model being built: the triangles they encode
+
 void cv_pipeline(std::unique_ptr<NifFile> nif, const std::string& optbits, bool back, std::ostream& out) {
 	out << "{\"stages\":[";
-	out << "{\"stage\":\"orig\",\"d\":" << cv_dump(*nif) << "}";
+	out << "{\"stage\":\"orig\",\"gen_tris\":{";
+	{
+		bool first = true;
+		for (auto& kv : g_genTris) {
+			out << (first ? "" : ",") << cv_jstr(kv.first) << ":" << cv_tris(kv.second);
+			first = false;
+		}
+		g_genTris.clear();
+	}
+	out << "},\"d\":" << cv_dump(*nif) << "}";
 	bool toSSE = nif->GetHeader().GetVersion().IsSK();
 	for (int round = 0; round < (back ? 2 : 1); ++round) {
 		OptOptions o = cv_opts(optbits, toSSE);
@@ -485,10 +497,32 @@ std::unique_ptr<NifFile> cv_build(const Case& c) {
 			tris.push_back(Triangle(a, b, d));
 		}
 		NiShape* shape = nullptr;
-		if (sk && has('t')) {
-			// NiTriStrips: every triangle becomes one strip of three points
+		if (sk && (has('t') || has('T'))) {
+			// NiTriStrips: every triangle becomes one strip of three points ('t'), or all triangles are stitched into ONE
+			// strip ('T': c_prev, a, a between two triangles = five degenerate windows, so that every real window starts
+			// at an even position). The generated triangles are the ground truth for the strip decoder.
 			auto data = std::make_unique<NiTriStripsData>();
 			data->Create(hdr.GetVersion(), &verts, nullptr, has('u') ? &uvs : nullptr, has('n') ? &norms : nullptr);
+			g_genTris[name] = tris;
+			if (has('T')) {
+				std::vector<uint16_t> pts;
+				for (auto& t : tris) {
+					if (!pts.empty()) {
+						pts.push_back(pts.back());
+						pts.push_back(t.p1);
+						pts.push_back(t.p1);
+					}
+					pts.push_back(t.p1);
+					pts.push_back(t.p2);
+					pts.push_back(t.p3);
+				}
+				if (!pts.empty()) {
+					uint16_t len = static_cast<uint16_t>(pts.size());
+					data->stripsInfo.stripLengths.push_back(len);
+					data->stripsInfo.points.push_back(pts);
+				}
+			}
+			else
 			for (auto& t : tris) {
 				uint16_t three = 3;
 				data->stripsInfo.stripLengths.push_back(three);
